@@ -5,6 +5,26 @@ use beve::{from_slice as beve_from_slice, to_vec as beve_to_vec};
 use std::borrow::Cow;
 use std::io::{self, Write};
 
+/// BEVE encoding of the empty *generic* array (generic-array header, length 0).
+///
+/// A serde-driven encoder picks the typed-array header from the first element, so
+/// for an empty `Vec<T>` it has nothing to go by and emits this instead of an
+/// empty typed array. It carries no elements, so reading it as the empty slice of
+/// any element type reinterprets nothing.
+pub(crate) const EMPTY_GENERIC_ARRAY: [u8; 2] = [0x05, 0x00];
+
+/// [`beve::read_typed_slice`] that also accepts [`EMPTY_GENERIC_ARRAY`], so the
+/// bulk decoders read what `body_beve(&Vec::<T>::new())` and the serde-based
+/// clients send for an empty vector.
+pub(crate) fn read_typed_slice_body<T: beve::BeveTypedSlice>(
+    body: &[u8],
+) -> Result<Vec<T>, beve::Error> {
+    if body == EMPTY_GENERIC_ARRAY {
+        return Ok(Vec::new());
+    }
+    beve::read_typed_slice(body)
+}
+
 #[derive(Debug, Clone, PartialEq, Eq)]
 pub struct Message {
     pub header: Header,
@@ -205,7 +225,7 @@ impl Message {
     /// [`body_beve`](MessageBuilder::body_beve) over a `Vec<T>`.
     pub fn decode_typed_slice<T: beve::BeveTypedSlice>(&self) -> Result<Vec<T>, RepeError> {
         self.require_body_format(BodyFormat::Beve)?;
-        Ok(beve::read_typed_slice(&self.body)?)
+        Ok(read_typed_slice_body(&self.body)?)
     }
 
     /// Decode a BEVE complex-array body into a `Vec<Complex<T>>` via a single
@@ -218,6 +238,9 @@ impl Message {
         &self,
     ) -> Result<Vec<beve::Complex<T>>, RepeError> {
         self.require_body_format(BodyFormat::Beve)?;
+        if self.body == EMPTY_GENERIC_ARRAY {
+            return Ok(Vec::new());
+        }
         Ok(beve::read_complex_slice(&self.body)?)
     }
 
